@@ -112,6 +112,22 @@ func (vc *VC) globalDecls() string {
 			}
 		}
 		sort.Strings(names)
+		// opaque definitions: uninterpreted symbols (their definition is expanded only where revealed)
+		var onames []string
+		for n, d := range vc.cs.Defs {
+			if d.Opaque {
+				onames = append(onames, n)
+			}
+		}
+		sort.Strings(onames)
+		for _, n := range onames {
+			d := vc.cs.Defs[n]
+			var ps []string
+			for _, srt := range d.Sorts {
+				ps = append(ps, sortByName(srt).SMT())
+			}
+			fmt.Fprintf(&sb, "(declare-fun spec.%s (%s) Bool)\n", n, strings.Join(ps, " "))
+		}
 		for _, n := range names {
 			d := vc.cs.Defs[n]
 			vars := map[string]Term{}
